@@ -205,7 +205,7 @@ def objects_setter_model(ctx):
             if fn == "isinstance" and len(args) == 2:
                 return isinstance(args[0], dict)
             return NotImplemented
-        it = Interp(ctx.hier, dyn=SEL, inline=lambda m: False, call_hook=hook)
+        it = Interp(ctx.hier, dyn=SEL, inline=lambda m: False, call_hook=hook, globals={"Undefined": Obj("Undefined")})
         try:
             outs = it.run_all(f, {f.params[0]: sel, f.params[1]: given})
         except Unsupported as e:
@@ -285,3 +285,35 @@ def report_named_objs(ctx, rule):
     else:
         desc, what = problems[0]
         ctx.fail(rule, f, f.node, "selector model: %s: %s (%d disagreeing case(s))" % (desc, what, len(problems)), key=f.qualname + "::named-objs-model", input=desc)
+
+
+def redeclaration_model(ctx, rule):
+    """A Selector re-declared in a subclass WITHOUT objects (Selector(doc=...)): the constructor hands Undefined to the
+    `objects` setter.  The objects themselves stay Undefined and are inherited from the ancestor; the labels must be
+    inherited with them -- a setter that stores names = {} makes the slot count as declared, so the subclass has the
+    ancestor's objects without their labels (items(), get_range() and `objects[label]` disagree with the ancestor's)."""
+    f = ctx.hier.property_setter(SEL, "objects")
+    if f is None:
+        raise AnalysisError("selector model: the setter of Selector.objects was not found")
+    UNDEF = Obj("Undefined")
+    sel = Obj("selector_being_constructed", name=None, owner=None)
+
+    def hook(fn, args, kwargs):
+        if fn == "isinstance" and len(args) == 2:
+            return isinstance(args[0], dict)
+        return NotImplemented
+    it = Interp(ctx.hier, dyn=SEL, inline=lambda m: False, call_hook=hook, globals={"Undefined": UNDEF})
+    try:
+        outs = it.run_all(f, {f.params[0]: sel, f.params[1]: UNDEF})
+    except Unsupported as e:
+        raise AnalysisError("selector model: absint cannot interpret the objects setter: %s" % e)
+    if len(outs) != 1 or outs[0].imprecise or outs[0].kind != "return":
+        raise AnalysisError("selector model: the objects setter is not interpretable precisely on Undefined (%s)" % (outs[0].notes[:2] if outs else "no outcome"))
+    ctx.abstract_cases += 1
+    names, objs = sel.attrs.get("names", UNDEF), sel.attrs.get("_objects", UNDEF)
+    if objs is UNDEF and names is not UNDEF:
+        ctx.fail(rule, f, f.node, "a Selector re-declared without objects keeps `_objects` Undefined (inherited from the ancestor) but stores names = %r: the labels of the inherited objects are "
+                                  "lost on the subclass -- items(), get_range() and objects[label] no longer agree with the objects" % (names,),
+                 key="%s::names-materialised-on-redeclaration" % SEL, input="class A: s = Selector(objects={'a': 1, 'b': 2}); class B(A): s = Selector(doc='x') -> B.param.s.names == {} with objects [1, 2]")
+    else:
+        ctx.ok(rule, f, f.node, "a Selector re-declared without objects leaves objects and labels to be inherited together")
